@@ -186,7 +186,8 @@ reg(Check("C18", "fault_enumeration",
           technique="exhaustive fault-point enumeration over the real code with an injected driver",
           engine="E5 sqlfake", claimed=True,
           parts=[Part("sqlfaults", "server/db/mysql", "^TestVerifC18", tags="mysql", gomaxprocs=4),
-                 Part("pgfaults", "server/db/postgres", "^TestVerifC18PG", tags="postgres", gomaxprocs=4)]))
+                 Part("pgfaults", "server/db/postgres", "^TestVerifC18PG", tags="postgres", gomaxprocs=4),
+                 Part("store-mappers", SRV, "^TestVerifC18StoreMappers$", instr=True)]))
 
 reg(Check("C01", "model_checking",
           "schedules: every interleaving of the session read loops, topic actor, hub, user cache and write loops of 3 scenarios "
